@@ -9,8 +9,10 @@ from harness import common, tlc
 
 
 def registry():
-    from harness.props import reqwait, errorclass, session, dispatch, handshake, versioning, framing, framing_out
+    from harness.props import reqwait, errorclass, session, dispatch, handshake, versioning, framing, framing_out, lifecycle, host
     return {
+        "C20": host.check_c20,
+        "C16": lifecycle.check_c16,
         "C06": framing_out.check_c06,
         "C05": framing.check_c05,
         "C13": versioning.check_c13,
